@@ -110,8 +110,21 @@ func plausibleBody(r *gen.RNG, n int) []byte {
 
 // hostileInputs generates the inputs of one case and hands each to emit as a
 // complete byte stream for ReadPacket.
-func hostileInputs(env run.Env, phase, idx int, emit func(kind string, in []byte)) {
+func hostileInputs(env run.Env, phase, idx int, emit0 func(kind string, in []byte)) {
 	r := rng(env, "hostile", phase, idx)
+	// A header that declares megabytes it does not deliver makes ReadPacket
+	// allocate the declared size (which C05 allows). Such inputs are kept to
+	// one in 64 — chosen by a hash of the input, so deterministically — to
+	// keep sixteen workers from thrashing memory; the "declared-huge" family
+	// covers them on purpose.
+	emit := func(kind string, in []byte) {
+		if kind != "declared-huge" {
+			if h, err := ref.ParseHeader(in); err == nil && h.RemLen > 1<<22 && len(in) < h.Total() && run.HashBytes(7, in)%64 != 0 {
+				return
+			}
+		}
+		emit0(kind, in)
+	}
 	switch phase {
 	case hArbitrary:
 		for i := 0; i < 64; i++ {
@@ -337,7 +350,11 @@ func listInputs(r *gen.RNG, emit func(string, []byte)) {
 	}
 	// headers declaring much more than follows (little or nothing behind them)
 	if r.Chance(1, 4) {
-		for _, decl := range []uint32{1 << 16, 1 << 20, 1 << 24, ref.MaxVBI} {
+		decls := []uint32{1 << 16, 1 << 20, 1 << 24}
+		if r.Chance(1, 8) {
+			decls = append(decls, ref.MaxVBI)
+		}
+		for _, decl := range decls {
 			m := []byte{f[0]}
 			m = ref.AppendVBI(m, decl)
 			m = append(m, body[:minInt(len(body), r.Intn(12))]...)
